@@ -1,7 +1,13 @@
 """C08 -- pull writes exactly the device file."""
 import oracles, scen
 from units.mk import Unit, COMMON
+
+
+def _conc(ctx):
+    from units import conc
+    conc.conc_sessions(ctx, int((20 if ctx.tier == "quick" else 300) * ctx.budget))
+
 Unit([("sync", scen.gen_sync_read, 1)], (oracles.o_c08, oracles.o_c09, oracles.o_lean_sync) + COMMON,
      "pull of device files of sizes {0,1,7,8,9,100,4095,4096,5000,65535,65536,65537} split into DATA records of {1,2,100,4096,65536,random} bytes and those "
      "into WRTE payloads of 1 byte / inside the 8-byte header / random / whole; destination BytesIO or real path; callback {none, counting, raising}. "
-     "Non-trivial/distinct as for C01.", 120, 3000).export(globals())
+     "Non-trivial/distinct as for C01.", 120, 3000, extra_run=_conc).export(globals())
